@@ -1515,7 +1515,14 @@ func (r *run) noteDefer(fr *frame, d *ssa.Defer) {
 }
 
 func (r *run) mapUpdate(cur *node, x *ssa.MapUpdate) {
-	// maps are not modelled (see lookupOp): the update is not recorded; a nil map would panic
+	if mm := r.mapModel(x.Map.Type()); mm != nil {
+		m := r.scalarOf(cur.val(x.Map), x.Map.Type())
+		k := r.scalarOf(cur.val(x.Key), x.Key.Type())
+		r.abnormal(cur, cur.fr, "nilmap", x, r.C().Eq(m, r.C().IntC(0)))
+		r.mapSet(cur, mm, m, k, cur.val(x.Value), true)
+		return
+	}
+	// other maps are not modelled (see lookupOp): the update is not recorded; a nil map would panic
 	if r.havocExterns != nil {
 		r.havocExterns["map update (not recorded)"] = true
 	}
@@ -1604,6 +1611,20 @@ func (r *run) execValue(fr *frame, cur *node, in ssa.Value) *node {
 	case *ssa.MakeMap:
 		ref := r.newRef(cur)
 		cur.vals[x] = Scalar{ref}
+		if mm := r.mapModel(x.Type()); mm != nil {
+			// a new map has no keys
+			has := cur.getPV(mm.name+".has", mm.hasSort)
+			cur.setPV(mm.name+".has", c.Store(has, ref, c.ConstArray(mm.hasSort.Elem, c.False())))
+			vals := cur.getPV(mm.name+".val", mm.arrSort)
+			cur.setPV(mm.name+".val", c.Store(vals, ref, c.ConstArray(mm.arrSort.Elem, r.scalarOf(r.zeroValue(mm.elem), mm.elem))))
+		}
+	case *ssa.Range:
+		if _, isMap := x.X.Type().Underlying().(*types.Map); !isMap {
+			r.unsupported("range over %s (string iteration)", x.X.Type())
+		}
+		cur.vals[x] = cur.val(x.X) // the iterator of a map is the map itself (iteration order is arbitrary)
+	case *ssa.Next:
+		cur.vals[x] = r.mapNext(cur, x)
 	case *ssa.Lookup:
 		cur.vals[x] = r.lookupOp(cur, fr, x)
 	case *ssa.Call:
@@ -1911,6 +1932,15 @@ func (r *run) lookupOp(cur *node, fr *frame, x *ssa.Lookup) Value {
 	}
 	// maps are not modelled: a lookup yields an arbitrary value of the element type (and an arbitrary
 	// presence flag), an update is not recorded. Sound as long as no contract speaks about map contents.
+	if mm := r.mapModel(x.X.Type()); mm != nil {
+		m := r.scalarOf(cur.val(x.X), x.X.Type())
+		k := r.scalarOf(cur.val(x.Index), x.Index.Type())
+		v, has := r.mapGet(cur, mm, m, k)
+		if x.CommaOk {
+			return TupleV{Elems: []Value{v, Scalar{has}}}
+		}
+		return v
+	}
 	if mt, ok := x.X.Type().Underlying().(*types.Map); ok {
 		v, as := r.freshValue("maplookup", mt.Elem())
 		for _, a := range as {
